@@ -5,6 +5,8 @@ import (
 	"math/big"
 	"strings"
 
+	"github.com/cockroachdb/apd/v2"
+	compact_float "github.com/kstenerud/go-compact-float"
 	compact_time "github.com/kstenerud/go-compact-time"
 	"github.com/kstenerud/go-concise-encoding/ce/events"
 	"pgregory.net/rapid"
@@ -415,6 +417,39 @@ func c03LengthSweep(ctx *Ctx, report func(c interface{}, err error)) {
 			return tm(compact_time.NewTimestamp(-500000, 12, 31, 23, 59, 59, 1, compact_time.TZAtAreaLocation(name(n))))
 		}},
 	}
+	// value sweeps ("length" = index into a list of boundary values)
+	bigDecExps := []int32{-2147483648, -2147483647, -1000000000, -524972, -100200, -100001, -100000, -99999, -99990, -6, 0, 5, 99990, 99999, 100000, 100001,
+		100200, 524972, 1000000000, 2147483646, 2147483647}
+	coeff := func(digits int) *big.Int {
+		v, _ := new(big.Int).SetString("7"+strings.Repeat("3", digits-2)+"1", 10)
+		return v
+	}
+	for _, digits := range []int{20, 27, 100} {
+		digits := digits
+		fams = append(fams, family{fmt.Sprintf("big-decimal-exponent/%d-digit-coefficient", digits), 0, len(bigDecExps) - 1, func(n int) []ev.Event {
+			d := &apd.Decimal{Exponent: bigDecExps[n]}
+			d.Coeff.Set(coeff(digits))
+			d.Negative = n%2 == 1
+			return []ev.Event{{K: ev.BigDFloat, BDF: d}}
+		}})
+	}
+	dfloatExps := []int32{-2147483648, -2147483647, -1000000, -100001, -99999, -400, 400, 99999, 100001, 1000000, 2147483646, 2147483647}
+	fams = append(fams, family{"decimal-float-exponent", 0, len(dfloatExps) - 1, func(n int) []ev.Event {
+		return []ev.Event{{K: ev.DFloat, DF: compact_float.DFloatValue(dfloatExps[n], 1234567890123456789)}}
+	}})
+	customCodes := []uint64{0, 1, 255, 256, 65535, 65536, 1<<32 - 2, 1<<32 - 1, 1 << 32, 1<<32 + 1, 1 << 40, 1<<63 - 1, 1 << 63, 1<<64 - 1}
+	fams = append(fams, family{"custom-binary-type-code", 0, len(customCodes) - 1, func(n int) []ev.Event {
+		return []ev.Event{{K: ev.CustomBinary, U: customCodes[n], Bs: []byte{1, 2, 3}}}
+	}})
+	fams = append(fams, family{"custom-text-type-code", 0, len(customCodes) - 1, func(n int) []ev.Event {
+		return []ev.Event{{K: ev.CustomText, U: customCodes[n], S: "abc"}}
+	}})
+	bigFloatExps := []int{-20000, -1100, -1075, -1074, -1023, -1022, 0, 1023, 1024, 1100, 20000}
+	fams = append(fams, family{"big-float-binary-exponent", 0, len(bigFloatExps) - 1, func(n int) []ev.Event {
+		f := new(big.Float).SetPrec(70).SetInt64(0x1d3)
+		f.SetMantExp(f, bigFloatExps[n])
+		return []ev.Event{{K: ev.BigFloat, BF: f}}
+	}})
 	cfg := newCfg()
 	var evals, nontrivial int64
 	k := 0
